@@ -30,7 +30,7 @@ Definition T_params (fuel : nat) : Prop := forall ts,
 
 Lemma anon_head_shorter ts names rest : anon_head ts = Some (names, rest) -> (length rest + 3 <= length ts)%nat.
 Proof.
-  intros H. destruct (anon_head_some (fun _ => false) eq_refl (fun _ nm => nm) _ _ _ H) as (Hne & hd & -> & HF).
+  intros H. destruct (anon_head_some (fun _ => false) eq_refl unit (fun _ nm => nm) (fun a _ => a) (fun _ _ => eq_refl) _ _ _ H) as (Hne & hd & -> & HF).
   apply alike_length in HF. rewrite !app_length in *. cbn [length] in HF.
   destruct names as [|n names']; [congruence|]. cbn [names_toks] in HF. destruct names'; cbn [length] in HF; lia.
 Qed.
